@@ -13,6 +13,10 @@ the tree of a handle; the tree is well-founded: rank).  copy_tree says what "omi
 
 Contract of deep_copy, for every node, version and table contents:   Ok(c)  ==>  copy_tree(node, v) == Some(tree_of(c));
                                                                       Err    ==>  copy_tree(node, v) is None
+Property lemma lemma_copy_validates (deepcopy_validates.rs; C13 "and still validates"): whatever copy_tree returns satisfies tree_ok -- every kept
+attribute is listed / available / valid in the target version, every kept text is valid, every kept sub-element is listed for the target
+version and itself tree_ok, and the tree starts with a SHORT-NAME where the type is identifiable there (all with the element types of the
+source: see the recorded finding on version-dependent element types).
 Property lemma lemma_copy_faithful (C13 "content identical to the source" for a destination of the same version): if everything in the
 subtree is compatible with the version (all_compat), then copy_tree(node, v) == Some(tree_of_node(node)) -- the copy is the source.
 
@@ -361,12 +365,14 @@ pub proof fn axiom_types_ok(n: ElementRaw, i: int)
     ensures subtree_types_ok(node_of(n.content@[i]->Element_0))
 {}
 '''
+    spec += open(os.path.join(os.path.dirname(os.path.abspath(__file__)), 'deepcopy_validates.rs')).read()
     u = Unit(name='deepcopy', prop='C13', spec=spec, fns=[fn],
              wrap={IMPL_R: 'impl ElementRaw', lookups.IMPL_ET: 'impl ElementType', lookups.IMPL_AV: 'impl AutosarVersion'},
              dropped=['the element graph: ElementRaw is {elemname, elemtype, content: Vec, attributes: Vec, comment}; a child Element is an opaque handle with uninterpreted node_of / tree_of; `ElementRaw { .. }.wrap()` and the write guard are a local value wrapped at the end (vx_wrap); parent links are not part of the tree',
                       'specification lookups are leaves with the contracts proved in unit lookups; CharacterData::check_version_compatibility is a leaf with a clause proved in unit chardata (`valid` uninterpreted)',
                       'ASSUMED: the tree is well-founded (rank; C03); every node below has a type inside the tables (subtree_types_ok)'])
-    u.property_lemmas = {'lemma_copy_faithful': 'if everything below the source is permitted in the version, the copy is identical to the source'}
+    u.property_lemmas = {'lemma_copy_faithful': 'if everything below the source is permitted in the version, the copy is identical to the source',
+                         'lemma_copy_validates': 'a successful copy contains only attributes, texts and sub-elements that are permitted in the target version (with the element types of the source), and starts with a SHORT-NAME where the type is identifiable there'}
     for name in LEAVES:
         u.leaves.append((lf[name], 'lookups'))
     return u
